@@ -86,6 +86,14 @@ loop:
 %meta bmdef	global registersize:8
 `
 
+// lifeVideoMachine: processor 0 runs `nop ; r2owa r0 o0`, processor 1 runs `nop ; r2v r0 5`: the
+// video write and the handshaked output that ends the single-shot simulation happen in the same tick.
+const lifeVideoMachine = `{"Rsize":8,"Domains":[` +
+	`{"Modes":["ha"],"Rsize":8,"WordSize":0,"R":1,"N":0,"M":1,"L":0,"O":5,"Shared_constraints":"","Op":["j","nop","r2owa"],"Slocs":["01000","10000"],"Vars":[],"Threaded":0},` +
+	`{"Modes":["ha"],"Rsize":8,"WordSize":0,"R":1,"N":0,"M":0,"L":0,"O":5,"Shared_constraints":"","Op":["j","nop","r2v"],"Slocs":["01000000000","10000000101"],"Vars":[],"Threaded":0}],` +
+	`"Processors":[0,1],"Inputs":0,"Outputs":1,"Internal_inputs":[{"Map_to":1,"Res_id":0,"Ext_id":0}],"Internal_outputs":[{"Map_to":3,"Res_id":0,"Ext_id":0}],` +
+	`"Links":[0],"Shared_objects":[],"Shared_links":[[],[]]}`
+
 func c17Child(outPath string) int {
 	f, err := os.Create(outPath)
 	if err != nil {
@@ -164,6 +172,26 @@ func c17Child(outPath string) int {
 		}
 		bm.SinglePipelineSimulate("unsigned", in, nil)
 	}, 1)
+	// a write to the video text memory (r2v, handed to the emulator dispatcher) in the very tick that
+	// ends the simulation: nothing of it may survive the call.  Losing interleavings are rare, so the
+	// series is long
+	{
+		saved := counts
+		counts = []int{50, 400, 1500}
+		if os.Getenv("VERIF_TIER") == "thorough" {
+			counts = []int{50, 400, 1500, 6000}
+		}
+		series("SinglePipelineSimulate-video-write-in-the-last-tick", func() {
+			bm, err := loadMachine([]byte(lifeVideoMachine))
+			if err != nil {
+				panic(err)
+			}
+			if _, err := bm.SinglePipelineSimulate("unsigned", []string{}, nil); err != nil {
+				panic(err)
+			}
+		}, 1)
+		counts = saved
+	}
 	series("basm-assembly", func() {
 		if _, _, err := bmgen.AssembleBasm(lifeBasm); err != nil {
 			panic(err)
@@ -201,6 +229,33 @@ func c17Child(outPath string) int {
 				done++
 			}
 			enc.Encode(lifeEvent{Ev: "sample", N: done, G: regSize(), ByEntry: map[string]int{"bmnumbers.AllTypes": len(bmnumbers.AllTypes), "bmnumbers.AllMatchers": len(bmnumbers.AllMatchers), "procbuilder.Allopcodes": len(procbuilder.Allopcodes)}})
+		}
+	}
+	// retained state in the caller's objects: the simulation boxes handed to Fitness_default are
+	// arguments; a tuner reuses them for every evaluation, so they must not grow with the calls
+	{
+		in, exp := new(simbox.Simbox), new(simbox.Simbox)
+		for _, rule := range []string{"absolute:10:set:o0:3", "absolute:12:set:o1:4"} {
+			if err := exp.Add(rule); err != nil {
+				fmt.Fprintf(os.Stderr, "simbox rule %s: %v\n", rule, err)
+				return 2
+			}
+		}
+		size := func() int { return len(in.Rules) + len(exp.Rules) }
+		if _, err := dual().Fitness_default(in, exp, 20); err != nil {
+			fmt.Fprintf(os.Stderr, "Fitness_default: %v\n", err)
+			return 2
+		}
+		enc.Encode(lifeEvent{Ev: "series", Kind: "retained-arguments:Fitness_default", G0: size(), Bound: 0})
+		done := 0
+		for _, target := range counts {
+			for done < target {
+				if _, err := dual().Fitness_default(in, exp, 20); err != nil {
+					panic(err)
+				}
+				done++
+			}
+			enc.Encode(lifeEvent{Ev: "sample", N: done, G: size(), ByEntry: map[string]int{"input box rules": len(in.Rules), "expectation box rules": len(exp.Rules)}})
 		}
 	}
 	return 0
